@@ -149,7 +149,9 @@ func VerifC09Workflow() {
 	wf.End().AddInput("b")
 	r, err := wf.Compile(ctx)
 	vassert(err == nil, "workflow compiles")
-	run := func(ctx context.Context, x int) (map[string]any, error) { return r.Invoke(ctx, map[string]any{"in": x}) }
+	run := func(ctx context.Context, x int) (map[string]any, error) {
+		return r.Invoke(ctx, map[string]any{"in": x})
+	}
 	want := func(x int) map[string]any {
 		va := map[string]any{"a": vsymUF("f_a", vFoldDeep(map[string]any{"in": x}))}
 		return map[string]any{"b": vsymUF("f_b", vFoldDeep(map[string]any{"fromA": va}))}
